@@ -28,7 +28,7 @@ C03_OPS = ["eq", "neq", "lt", "le", "gt", "ge", "select", "bool_and", "bool_or",
 
 C02_OPS = ["add", "sub", "mul", "div", "sqrt", "neg", "abs", "copysign", "bitofsign", "nextafter", "bitwise_and", "bitwise_or", "bitwise_xor",
            "bitwise_andnot", "bitwise_not", "fma", "fms", "fnma", "fnms", "min", "max", "isnan", "isinf", "isfinite", "is_flint",
-           "is_even", "is_odd", "sign", "signnz", "ldexp"]
+           "is_even", "is_odd", "sign", "signnz", "ldexp", "frexp"]
 C08_OPS = ["ceil", "floor", "trunc", "round", "nearbyint", "rint", "nearbyint_as_int"]
 
 C04_OPS = ["load_aligned", "load_unaligned", "store_aligned", "store_unaligned", "broadcast", "bool_load_aligned", "bool_load_unaligned",
